@@ -66,73 +66,6 @@ func qualifier(pkg *types.Package) types.Qualifier {
 	}
 }
 
-// observations lists the terms to read from the model for the function's parameters.
-func (fe *FnEnc) observations() []Obs {
-	var out []Obs
-	s := fe.s
-	off := 0
-	if fe.fn.Signature.Recv() != nil {
-		off = 1
-	}
-	for i, p := range fe.fn.Params {
-		name := fmt.Sprintf("a%d", i)
-		_ = off
-		cn := fe.paramConsts[i].Const
-		t := p.Type()
-		switch u := types.Unalias(t).Underlying().(type) {
-		case *types.Basic:
-			out = append(out, Obs{GoLval: name, Term: cn, Type: t, Kind: "scalar", Param: name})
-		case *types.Pointer:
-			if st, ok := structOf(u.Elem()); ok {
-				sn := s.sortOf(u.Elem())
-				var walk func(st *types.Struct, prefix string, term func(string) string, top bool, tsn string)
-				walk = func(st *types.Struct, prefix string, term func(string) string, top bool, tsn string) {
-					for j := 0; j < st.NumFields(); j++ {
-						f := st.Field(j)
-						var base string
-						if top {
-							k := "H_" + tsn + "_" + f.Name()
-							if _, ok := s.heapSort[k]; !ok {
-								continue
-							}
-							base = "(select " + k + "_0 " + cn + ")"
-						} else {
-							base = "(" + fieldAcc(tsn, st, j) + " " + term("") + ")"
-						}
-						switch fu := types.Unalias(f.Type()).Underlying().(type) {
-						case *types.Basic:
-							if fu.Info()&(types.IsInteger|types.IsBoolean) != 0 {
-								out = append(out, Obs{GoLval: prefix + "." + f.Name(), Term: base, Type: f.Type(), Kind: "scalar", Param: name})
-							}
-						case *types.Struct:
-							b := base
-							walk(fu, prefix+"."+f.Name(), func(string) string { return b }, false, s.sortOf(f.Type()))
-						case *types.Array:
-							if fu.Len() <= 64 {
-								if eb, ok := fu.Elem().Underlying().(*types.Basic); ok && eb.Info()&types.IsInteger != 0 {
-									for k := int64(0); k < fu.Len(); k++ {
-										out = append(out, Obs{GoLval: fmt.Sprintf("%s.%s[%d]", prefix, f.Name(), k), Term: fmt.Sprintf("(select %s %d)", base, k), Type: fu.Elem(), Kind: "scalar", Param: name})
-									}
-								}
-							}
-						}
-					}
-				}
-				walk(st, name, nil, true, sn)
-			}
-		case *types.Slice:
-			es := s.sortOf(u.Elem())
-			out = append(out, Obs{GoLval: name, Term: s.seqLen(es, cn), Type: t, Kind: "len", Param: name})
-			if eb, ok := u.Elem().Underlying().(*types.Basic); ok && eb.Info()&types.IsInteger != 0 {
-				for k := 0; k < 16; k++ {
-					out = append(out, Obs{GoLval: fmt.Sprintf("%s[%d]", name, k), Term: fmt.Sprintf("(select %s %d)", s.seqArr(es, cn), k), Type: u.Elem(), Kind: "elem", Param: name, Index: k})
-				}
-			}
-		}
-	}
-	return out
-}
-
 var reGetValue = regexp.MustCompile(`(?s)OBS (\d+)\s*\n\(\((.*?)\)\)\s*\n`)
 
 // queryObservations re-runs the refuting solver asking for the observation terms.
@@ -402,16 +335,34 @@ func Replay(g *Gen, repo, replayDir, prop string, o *Obligation, results []*Func
 		return finish("no counterexample from the verifier (" + o.Status + ")")
 	}
 	fe := fr.fe
-	obs := fe.observations()
-	vals := queryObservations(o, obs, o.Solver)
+	if fe.staticContractCalls > 0 {
+		// the counterexample speaks about callee contracts; re-generate the obligation with the
+		// in-repo callees inlined so that the model covers the whole path (replay only)
+		g.inlineForReplay = true
+		fr2 := g.VerifyFunction(fr.Contract)
+		g.inlineForReplay = false
+		for _, o2 := range fr2.Obls {
+			if o2.Name == o.Name && fr2.fe != nil {
+				o2.Except = o.Except
+				DischargeAll([]*Obligation{o2}, 20, 1, false)
+				if o2.Status == "refuted" {
+					content["replay_mode"] = "callees inlined for the replay model"
+					fe, o = fr2.fe, o2
+				}
+			}
+		}
+	}
+	rb := newRBuilder(g, fe)
+	rb.planAll()
+	vals := queryObservations(o, rb.obs, o.Solver)
 	model := map[string]string{}
-	for i, ob := range obs {
-		if v, ok := vals[i]; ok {
+	for i, ob := range rb.obs {
+		if v, ok := vals[i]; ok && len(model) < 400 {
 			model[ob.GoLval] = v
 		}
 	}
 	content["model"] = model
-	src, note, ok := genReplayTest(g, fe, o, obs, vals)
+	src, note, ok := rb.genTest(o, vals)
 	if !ok {
 		return finish("counterexample not replayable: " + note)
 	}
@@ -437,7 +388,7 @@ func Replay(g *Gen, repo, replayDir, prop string, o *Obligation, results []*Func
 	txt := out.String()
 	content["replay_output"] = truncate(txt, 4000)
 	switch {
-	case strings.Contains(txt, "REPLAY-REPRODUCED"):
+	case strings.Contains(txt, "REPLAY-REPRODUCED") && !strings.Contains(txt, "REPLAY-NOT-REPRODUCED: model does not satisfy"):
 		rr.Reproduced = true
 		return finish("counterexample reproduced on the real code")
 	case strings.Contains(txt, "REPLAY-NOT-REPRODUCED"):
@@ -446,184 +397,11 @@ func Replay(g *Gen, repo, replayDir, prop string, o *Obligation, results []*Func
 	return finish("replay test did not run to a verdict")
 }
 
-func genReplayTest(g *Gen, fe *FnEnc, o *Obligation, obs []Obs, vals map[int]string) (string, string, bool) {
-	fn := fe.fn
-	pkg := fn.Pkg.Pkg
-	q := qualifier(pkg)
-	var b strings.Builder
-	fmt.Fprintf(&b, "package %s\n\nimport (\n\t\"fmt\"\n\t\"math/big\"\n\t\"reflect\"\n\t\"testing\"\n", pkg.Name())
-	imports := map[string]bool{}
-	var body strings.Builder
-	var argNames []string
-	lens := map[string]int{}
-	for i, ob := range obs {
-		if ob.Kind == "len" {
-			if v, ok := vals[i]; ok {
-				if n, ok := modelInt(v); ok && n.IsInt64() && n.Int64() <= 1<<16 {
-					lens[ob.Param] = int(n.Int64())
-				} else {
-					return "", "slice length in the model too large", false
-				}
-			}
-		}
-	}
-	for i, p := range fn.Params {
-		name := fmt.Sprintf("a%d", i)
-		argNames = append(argNames, name)
-		t := p.Type()
-		ts := types.TypeString(t, q)
-		collectImports(t, pkg, imports)
-		switch u := types.Unalias(t).Underlying().(type) {
-		case *types.Basic:
-			fmt.Fprintf(&body, "\tvar %s %s\n", name, ts)
-		case *types.Pointer:
-			if _, ok := structOf(u.Elem()); ok {
-				fmt.Fprintf(&body, "\t%s := new(%s)\n", name, types.TypeString(u.Elem(), q))
-			} else {
-				return "", "pointer parameter to non-struct", false
-			}
-		case *types.Slice:
-			fmt.Fprintf(&body, "\t%s := make(%s, %d)\n", name, ts, lens[name])
-		default:
-			return "", fmt.Sprintf("parameter of type %s", ts), false
-		}
-	}
-	for i, ob := range obs {
-		v, ok := vals[i]
-		if !ok || ob.Kind == "len" {
-			continue
-		}
-		if ob.Kind == "elem" && ob.Index >= lens[ob.Param] {
-			continue
-		}
-		if v == "true" || v == "false" {
-			fmt.Fprintf(&body, "\t%s = %s\n", ob.GoLval, v)
-			continue
-		}
-		n, ok := modelInt(v)
-		if !ok {
-			continue
-		}
-		ts := types.TypeString(ob.Type, q)
-		collectImports(ob.Type, pkg, imports)
-		if w, signed, ok := intInfo(ob.Type); ok {
-			// bring the model value into the type's range (unconstrained locations may carry any integer)
-			n = new(big.Int).Mod(n, pow2(w))
-			if signed && n.Cmp(pow2(w-1)) >= 0 {
-				n = new(big.Int).Sub(n, pow2(w))
-			}
-		}
-		fmt.Fprintf(&body, "\t%s = %s(%s)\n", ob.GoLval, ts, n.String())
-	}
-	for imp := range imports {
-		fmt.Fprintf(&b, "\t%q\n", imp)
-	}
-	b.WriteString(")\n\nvar _ = reflect.DeepEqual\nvar _ = big.NewInt\n" + replayHelpers + "\n")
-	// call
-	nres := fn.Signature.Results().Len()
-	var resNames []string
-	for i := 0; i < nres; i++ {
-		resNames = append(resNames, fmt.Sprintf("r%d", i))
-	}
-	call := ""
-	if fn.Signature.Recv() != nil {
-		call = fmt.Sprintf("%s.%s(%s)", argNames[0], fn.Name(), strings.Join(argNames[1:], ", "))
-	} else {
-		call = fmt.Sprintf("%s(%s)", fn.Name(), strings.Join(argNames, ", "))
-	}
-	b.WriteString("func TestZZVerifReplay(t *testing.T) {\n")
-	b.WriteString(body.String())
-	{
-		pvars := map[string]string{}
-		poff := 0
-		if fn.Signature.Recv() != nil {
-			poff = 1
-			if fe.ct.RecvName != "" {
-				pvars[fe.ct.RecvName] = argNames[0]
-			}
-		}
-		for i, n := range fe.ct.Params {
-			pvars[n] = argNames[i+poff]
-		}
-		for _, r := range fe.ct.Requires {
-			if ge, ok := goExprErr(r.E, pvars, fe.ct, fn.Signature.Results(), nil); ok {
-				fmt.Fprintf(&b, "\tif !(%s) { fmt.Println(\"REPLAY-NOT-REPRODUCED: model does not satisfy precondition:\", %q); return }\n", ge, r.Src)
-			}
-		}
-	}
-	b.WriteString("\tpanicked := false\n\tvar pv interface{}\n")
-	for i, rn := range resNames {
-		collectImports(fn.Signature.Results().At(i).Type(), pkg, imports)
-		fmt.Fprintf(&b, "\tvar %s %s\n", rn, types.TypeString(fn.Signature.Results().At(i).Type(), q))
-	}
-	b.WriteString("\tfunc() {\n\t\tdefer func() { if r := recover(); r != nil { panicked = true; pv = r } }()\n")
-	if nres > 0 {
-		fmt.Fprintf(&b, "\t\t%s = %s\n", strings.Join(resNames, ", "), call)
-	} else {
-		fmt.Fprintf(&b, "\t\t%s\n", call)
-	}
-	b.WriteString("\t}()\n")
-	for _, rn := range resNames {
-		fmt.Fprintf(&b, "\t_ = %s\n", rn)
-	}
-	b.WriteString("\tif panicked { fmt.Println(\"REPLAY-REPRODUCED: panic:\", pv); return }\n")
-	// postconditions
-	vars := map[string]string{}
-	ct := fe.ct
-	off := 0
-	if fn.Signature.Recv() != nil {
-		off = 1
-		if ct.RecvName != "" {
-			vars[ct.RecvName] = argNames[0]
-		}
-	}
-	for i, n := range ct.Params {
-		vars[n] = argNames[i+off]
-	}
-	for i, n := range ct.Results {
-		rt := fn.Signature.Results().At(i).Type()
-		if !types.Identical(rt, types.Universe.Lookup("error").Type()) {
-			vars[n] = resNames[i]
-		}
-	}
-	if nres == 1 {
-		vars["result"] = resNames[0]
-	}
-	if strings.HasPrefix(o.Kind, "post") {
-		for _, e := range ct.Ensures {
-			if "post:"+e.Label != o.Kind+":"+strings.TrimPrefix(o.Name[strings.Index(o.Name, "#")+1:], o.Kind+":") {
-				continue
-			}
-			ge, ok := goExprErr(e.E, vars, ct, fn.Signature.Results(), resNames)
-			if !ok {
-				b.WriteString("\tfmt.Println(\"REPLAY-NOT-REPRODUCED: postcondition not executable\")\n")
-				continue
-			}
-			fmt.Fprintf(&b, "\tif !(%s) { fmt.Println(\"REPLAY-REPRODUCED: postcondition violated:\", %q", ge, e.Src)
-			for _, rn := range resNames {
-				fmt.Fprintf(&b, ", %s", rn)
-			}
-			b.WriteString("); return }\n")
-		}
-	}
-	b.WriteString("\tfmt.Println(\"REPLAY-NOT-REPRODUCED\")\n}\n")
-	// rebuild header with final imports
-	src := b.String()
-	var hdr strings.Builder
-	fmt.Fprintf(&hdr, "package %s\n\nimport (\n\t\"fmt\"\n\t\"math/big\"\n\t\"reflect\"\n\t\"testing\"\n", pkg.Name())
-	for imp := range imports {
-		fmt.Fprintf(&hdr, "\t%q\n", imp)
-	}
-	i := strings.Index(src, ")\n\nvar _ = reflect.DeepEqual")
-	src = hdr.String() + src[i:]
-	return src, "", true
-}
-
 // goExprErr handles `err == nil` / `err != nil` on error-typed results.
 func goExprErr(e Expr, vars map[string]string, ct *Contract, res *types.Tuple, resNames []string) (string, bool) {
 	errNames := map[string]string{}
 	for i, n := range ct.Results {
-		if i < res.Len() && types.Identical(res.At(i).Type(), types.Universe.Lookup("error").Type()) {
+		if i < res.Len() && i < len(resNames) && types.Identical(res.At(i).Type(), types.Universe.Lookup("error").Type()) {
 			errNames[n] = resNames[i]
 		}
 	}
